@@ -419,6 +419,11 @@ Definition pts_total_len (bs : list Z) : nat :=
   if Nat.eqb n_points 0 then nb
   else pts_total_len_loop (S (length bs)) n_points 0 nb (skipn nb bs).
 
+(* PackedPointNumbers::split_off_front: number of bytes taken off the front
+   (`data.split_off(total_len).unwrap_or_default()`: when total_len exceeds the data, the remainder is empty) *)
+Definition pts_split_consumed (bs : list Z) : nat :=
+  let t := pts_total_len bs in if Nat.leb t (length bs) then t else length bs.
+
 (* ================================================================================================ *)
 (* (b) IUP optimiser — structural part, parametric in the kernel                                     *)
 (* ================================================================================================ *)
@@ -838,7 +843,7 @@ Definition check_case (c : case) : bool :=
       match decode_points bytes with
       | RAll => rall
       | RSome l => negb rall && zlist_eqb l rp
-      end && (Z.of_nat (pts_total_len bytes) =? consumed)
+      end && (Z.of_nat (pts_split_consumed bytes) =? consumed)
   | CIup tn td ends coords deltas res =>
       match iup_delta_optimize deltas coords (Qmake tn (Z.to_pos td)) (map Z.to_nat ends), res with
       | Some a, Some b => glist_eqb a b
